@@ -136,7 +136,16 @@ def work_valid(job):
             outname = None
             if o and o[0].startswith('OUT='):      # pseudo option: the name of the output file
                 outname, o = o[0][4:], o[1:]
+            pre = False
+            if o and o[0] == 'PREEXISTING':         # pseudo option: the output directory already holds .c files (a re-translation, a neighbour)
+                pre, o = True, o[1:]
+                os.makedirs(os.path.join(wd, 'out'), exist_ok=True)
+                for fn in ('other.c', 's0000000001.c', 'd0000000002.c', 'm.c'):
+                    with open(os.path.join(wd, 'out', fn), 'w') as fh:
+                        fh.write('/* pre-existing */\n')
             kind, msg = run_w2c2(w2c2, wd, data, o, refdata=refdata, outname=outname)
+            if pre:
+                o = ['output directory holds other.c, s0000000001.c, d0000000002.c, m.c'] + o
             if outname is not None:
                 o = ['output file name %r' % (outname if len(outname) < 40 else outname[:20] + '...(%d characters)' % len(outname))] + o
             res.append((o, kind, msg))
@@ -217,6 +226,8 @@ def main(tier):
     for cname, pre, suf in enum_cf.contexts():
         for b in c03.batches_of('cf-ctx', Sm, pm, [], rm, 3 if tier == 'quick' else 4, in1, [('env', 'mark', 'i', 'i')], False, (pre, suf)):
             jobs.append(('all valid fillings of context %s (batch of %d)' % (cname, len(b.cases)), b.wasm, [[]], w2c2))
+    for n, d in hb[:2]:
+        jobs.append((n, d, [['PREEXISTING'] + extra for extra in ([], ['-c'], ['-c', '-f', '1', '-t', '2'], ['-c', '-r', 'REF', '-f', '1'], ['-f', '1'])], w2c2))
     positions = ('export', 'import-module', 'import-field', 'name-section', 'partial-name-section', 'import-global')
     for nm in NAME_ALPHABET:
         for pos in positions:
